@@ -55,6 +55,28 @@ def run(ctx):
         if out != 'stop' or pos != [len(e[1]) * (i + 1) for i in range(n)]:
             ctx.prop_fail('stream of %d encodings: objects/positions %r, outcome %r' % (n, pos, out),
                           {'codec': cdc, 'T': c.T, 'v': c.v, 'encoding': e[1].hex(), 'n': n})
+        # the same stream arriving in pieces, with empty polls in between, on a seekable and on a non-seekable
+        # (hence wrapped) non-blocking source: one object per encoding, same values, same positions
+        want_vals = [U.absval_top(x[1], c.T) for x in ev if not isinstance(x, str)]
+        if out == 'stop' and len(data) <= 4000:
+            for seekable in (True, False):
+                sizes, left = [], len(data)
+                while left > 0:
+                    k = min(left, ctx.rng.choice([1, 1, 2, 3, 5, 17, 64, len(e[1])])); sizes.append(k); left -= k
+                polls = set(ctx.rng.sample(range(len(sizes)), min(len(sizes), ctx.rng.randint(0, 4))))
+                sched = streams.schedule_from_sizes(data, sizes, polls=polls)
+                s2 = streams.Growing(seekable=seekable)
+                ev2, out2 = streams.drive(I.DEC[cdc], s2, sched, spec=c.spec)
+                objs2 = [x for x in ev2 if not isinstance(x, str)]
+                ctx.case(('stream-pieces', cdc, e[1], n, seekable, tuple(sizes[:20])), True)
+                good = out2 == 'stop' and len(objs2) == n and all(U.aval_eq(U.absval_top(o[1], c.T), w) for o, w in zip(objs2, want_vals))
+                if seekable:
+                    good = good and [o[2] for o in objs2] == pos
+                if not good:
+                    ctx.prop_fail('stream of %d encodings arriving in pieces from a %s source: %d objects, outcome %r' % (
+                        n, 'seekable' if seekable else 'non-seekable', len(objs2), out2),
+                        {'codec': cdc, 'T': c.T, 'v': c.v, 'encoding': e[1].hex(), 'n': n, 'seekable': seekable, 'sizes': sizes[:200], 'polls': sorted(polls)},
+                        finding=fid)
     # long back-to-back streams from a non-seekable source (beyond the caching wrapper's buffer)
     import io
     from pyasn1.type import univ
